@@ -462,6 +462,14 @@ INJECTOR_NAMES_2 = {
 
 # ---- round 10 (hunt on the unchanged tree): reproducers of the repaired defects and of the recorded findings
 ROUND10 = {
+    'NAME_INIT': 'package main\n\nimport "github.com/mazrean/kessoku"\n\ntype App struct{}\n\nfunc NewApp() *App { return &App{} }\n\nvar _ = kessoku.Inject[*App]("init", kessoku.Provide(NewApp))\n\nfunc main() {}\n',
+    'UNEXPORTED_MEMBERS_LIB': 'package lib\n\ntype Opts = struct{ verbose bool }\ntype Sealed = interface{ sealed() }\ntype impl struct{}\n\nfunc (impl) sealed() {}\n\ntype App struct{ V bool }\ntype Cache struct{}\n\nfunc NewOpts() struct{ verbose bool }   { return struct{ verbose bool }{true} }\nfunc NewCache() *Cache                  { return &Cache{} }\nfunc NewApp(o struct{ verbose bool }, c *Cache) *App { return &App{o.verbose} }\nfunc NewSealed() interface{ sealed() }  { return impl{} }\n',
+    'UNEXPORTED_MEMBERS': 'package main\n\nimport (\n\t"context"\n\n\t"github.com/mazrean/kessoku"\n\t"vscratch/unexported_members/lib"\n)\n\nvar _ = kessoku.Inject[*lib.App]("InitApp", kessoku.Async(kessoku.Provide(lib.NewOpts)), kessoku.Async(kessoku.Provide(lib.NewCache)), kessoku.Provide(lib.NewApp))\n\nfunc main() { _ = InitApp(context.Background()) }\n',
+    'UNEXPORTED_MEMBERS_PARAM': 'package main\n\nimport (\n\t"github.com/mazrean/kessoku"\n\t"vscratch/unexported_members_param/lib"\n)\n\nvar _ = kessoku.Inject[*lib.App]("InitApp", kessoku.Provide(lib.NewCache), kessoku.Provide(lib.NewApp))\n\nfunc main() {}\n',
+    'TEST_FILE_NAMES': 'package main\n\nimport (\n\t"context"\n\n\t"github.com/mazrean/kessoku"\n)\n\ntype A struct{}\ntype C struct{}\ntype B struct{ a *A }\n\nfunc NewA() *A           { return &A{} }\nfunc NewC() *C           { return &C{} }\nfunc NewB(a *A, c *C) *B { return &B{a} }\n\nvar _ = kessoku.Inject[*B]("InitB", kessoku.Async(kessoku.Provide(NewA)), kessoku.Async(kessoku.Provide(NewC)), kessoku.Provide(NewB))\n\nfunc main() { _ = InitB(context.Background()) }\n',
+    'TEST_FILE_NAMES_TEST': 'package main\n\nimport "testing"\n\n// a helper of the package\'s own tests, named like the package the generated file imports\nfunc errgroup(t *testing.T) { t.Helper() }\n\nfunc TestB(t *testing.T) { errgroup(t) }\n',
+    'TAGGED_X': '//go:build integration\n\npackage main\n\nimport (\n\t"context"\n\n\t"github.com/mazrean/kessoku"\n)\n\ntype A struct{}\ntype C struct{}\ntype B struct{ a *A }\n\nfunc NewA() *A           { return &A{} }\nfunc NewC() *C           { return &C{} }\nfunc NewB(a *A, c *C) *B { return &B{a} }\n\nvar _ = kessoku.Inject[*B]("InitB", kessoku.Async(kessoku.Provide(NewA)), kessoku.Async(kessoku.Provide(NewC)), kessoku.Provide(NewB))\n\nfunc main() { _ = InitB(context.Background()) }\n',
+    'TAGGED_Y': '//go:build integration\n\npackage main\n\n// a package-level name of the same package, in the same build configuration as x.go\nvar errgroup = "taken"\n\nvar _ = errgroup\n',
     'LOCAL_REF_CLOSURE': 'package main\n\nimport "github.com/mazrean/kessoku"\n\ntype App struct{ Limit int }\n\nfunc NewApp(n int) *App { return &App{n} }\n\nvar limit = 1\n\nfunc setup() {\n\tlimit := 2\n\t_ = kessoku.Inject[*App]("InitApp",\n\t\tkessoku.Provide(func() int { return limit }),\n\t\tkessoku.Provide(NewApp),\n\t)\n}\n\nfunc main() {\n\tsetup()\n\tif InitApp().Limit != 2 {\n\t\tpanic("wrong result")\n\t}\n}\n',
     'LOCAL_REF_IN_SET': 'package main\n\nimport "github.com/mazrean/kessoku"\n\ntype App struct{ Limit int }\n\nfunc NewApp(n int) *App { return &App{n} }\n\nvar limit = 1\n\nfunc setup() {\n\tlimit := 2\n\tproviders := kessoku.Set(kessoku.Value(limit), kessoku.Provide(NewApp))\n\t_ = kessoku.Inject[*App]("InitApp", providers)\n}\n\nfunc main() {\n\tsetup()\n\tif InitApp().Limit != 2 {\n\t\tpanic("wrong result")\n\t}\n}\n',
     'LOCAL_SET_SAME_NAME': 'package main\n\nimport "github.com/mazrean/kessoku"\n\ntype A struct{ s string }\ntype B struct{ a *A }\ntype C struct{ s string }\ntype D struct{ c *C }\n\nfunc NewA() *A     { return &A{"a"} }\nfunc NewB(a *A) *B { return &B{a} }\nfunc NewC() *C     { return &C{"c"} }\nfunc NewD(c *C) *D { return &D{c} }\n\nfunc first() {\n\tset := kessoku.Set(kessoku.Provide(NewA), kessoku.Provide(NewB))\n\t_ = kessoku.Inject[*B]("InitB", set)\n}\n\nfunc second() {\n\tset := kessoku.Set(kessoku.Provide(NewC), kessoku.Provide(NewD))\n\t_ = kessoku.Inject[*D]("InitD", set)\n}\n\nfunc main() {\n\tvar f func() *B = InitB\n\tvar g func() *D = InitD\n\tif f().a.s != "a" || g().c.s != "c" {\n\t\tpanic("wrong result")\n\t}\n}\n',
@@ -710,6 +718,11 @@ def _stage(seed, tier, key="N-x"):
     pkgs.append(("name_taken_dot", {"k.go": R["NAME_TAKEN_DOT"], "helpers.go": R["NAME_TAKEN_DOT_HELPERS"], "lib/l.go": R["NAME_TAKEN_DOT_LIB"]}, ["k.go"], None, dict(kind="an injector named like an identifier another file dot-imports", run=True)))
     pkgs.append(("inaccessible_sibling", {"apptool/k.go": R["SIBLING_K"], "app/a.go": R["SIBLING_APP"], "app/internal/conf/c.go": R["SIBLING_CONF"]}, ["apptool/k.go"], None, dict(kind="a type of an internal package of a SIBLING directory (apptool next to app)", vet_pkgs=["./apptool"], run=True, run_pkgs=["./apptool"])))
     pkgs.append(("bind_struct_nested", {"k.go": R["BIND_STRUCT_NESTED"]}, ["k.go"], None, dict(kind="Bind over a Struct expansion whose struct is a field of another expanded struct, both orders", run=True, value_check=True, expect_params={"k_band.go": {"InitNested": [], "InitNested2": []}})))
+    pkgs.append(("name_init", {"k.go": R["NAME_INIT"]}, ["k.go"], None, dict(kind="an injector named init", run=True)))
+    pkgs.append(("unexported_members", {"k.go": R["UNEXPORTED_MEMBERS"], "lib/l.go": R["UNEXPORTED_MEMBERS_LIB"]}, ["k.go"], None, dict(kind="an unnamed struct type with an unexported field of another package in the var block", run=True)))
+    pkgs.append(("unexported_members_param", {"k.go": R["UNEXPORTED_MEMBERS_PARAM"], "lib/l.go": R["UNEXPORTED_MEMBERS_LIB"].replace("unexported_members", "unexported_members_param")}, ["k.go"], None, dict(kind="the same as an injector parameter", run=True)))
+    pkgs.append(("test_file_names", {"k.go": R["TEST_FILE_NAMES"], "k_test.go": R["TEST_FILE_NAMES_TEST"]}, ["k.go"], None, dict(kind="naming: a package-level name declared in the package's own _test.go file", run=True)))
+    pkgs.append(("all_files_tagged", {"x.go": R["TAGGED_X"], "y.go": R["TAGGED_Y"]}, ["x.go"], None, dict(kind="every file of the package is under a build tag that is off: the file is loaded on its own", vet_env={"GOFLAGS": "-mod=mod -tags=integration"})))
     pkgs.append(("local_set", {"k.go": R["LOCAL_SET"]}, ["k.go"], None, dict(kind="a Set held in a := variable", run=True, value_check=True, expect_params={"k_band.go": {"InitApp": []}})))
     pkgs.append(("shared_set_dot", {"k.go": R["SHARED_SET_DOT"], "lib/l.go": R["SHARED_SET_DOT_LIB"]}, ["k.go"], None, dict(kind="imports: a Set shared by two injectors, one provider dot-imported", run=True)))
     pkgs.append(("name_taken_a", {"k.go": R["NAME_TAKEN_A"]}, ["k.go"], None, dict(kind="an injector named like a function of the package", run=True)))
